@@ -310,9 +310,15 @@ def gen_cases(ctx, quick):
         steps = [r.range(4, 12)] if rank == 2 else [r.range(3, 6), r.range(3, 6)]
         rows = sp.anisotropic_points(r, N, D, rank, steps)
         if sp.centred_points_rank(rows) == rank and rank <= min(N - 1, D):
-            for solver in ("rand", "dense"):
+            # the Randomized solver resolves retained eigenvalue ratios up to ~10^7 (relative 1e-9 dependence threshold);
+            # 4^sum(steps) times the spread ratio of the axes (up to ~10) stays below that for sum(steps) <= 10.  Beyond it a
+            # lost 2^-27 of the Gram matrix is the conditioning of the problem, not a violation (clean-tree alarm at
+            # VERIF_SEED=6: ratio > 10^7, PCA vs MDS Gram matrices off by 2^-27 relative) - Dense only there.
+            rand_ok = sum(steps) <= 10
+            for solver in (("rand", "dense") if rand_ok else ("dense",)):
                 add("anisotropic-exact-rank", "pca", solver, rows, N, D, rank, False, rank)
-            add("anisotropic-exact-rank", "agree", "rand", rows, N, D, rank, False, rank)
+            if rand_ok:
+                add("anisotropic-exact-rank", "agree", "rand", rows, N, D, rank, False, rank)
             add("anisotropic-exact-rank", "agree", "dense", rows, N, D, rank, False, rank)
         # 2e. WIDE anisotropy, Dense solver: rank-2 strips in D dims with covariance eigenvalue ratios down to 2^-44
         N = r.range(5, 12)
